@@ -8,8 +8,8 @@ Tie (T)    : tools/tx_c08_shuffle.py re-reads the literal reshape / transpose /
              about (one obligation per constant).
 Tie (K)    : the executable model (coq/Model/C08.v, vm_compute) against the
              real to_choi / to_super / to_chi / kraus_to_choi / _superpauli_basis
-             / _svd_u_to_kraus / _choi_to_stinespring / Qobj.ishp / Qobj.istp /
-             Qobj.dual_chan on
+             / _svd_u_to_kraus / _choi_to_stinespring / _choi_to_kraus (after the
+             eigen-solver) / Qobj.ishp / Qobj.istp / Qobj.dual_chan on
              generated Gaussian-integer inputs, compared exactly (data, dims
              labels, superrep tag, error class).
 Oracle     : the property itself on real qutip objects: every representation
@@ -30,7 +30,7 @@ import vlib
 from vlib import cnat, clist
 
 HEADER = ("From Coq Require Import List ZArith Bool.\nImport ListNotations.\n"
-          "From QV Require Import Model.C08 Model.C08_ext.\nLocal Open Scope Z_scope.\n")
+          "From QV Require Import Model.C08 Model.C08_ext Model.C08_kraus.\nLocal Open Scope Z_scope.\n")
 
 VAL_TOL = 1e-9          # labelled validation tolerance where eig / SVD enter
 
@@ -276,6 +276,25 @@ def impl_kraus(ks):
 def impl_pauli(nq):
     from qutip.core import superop_reps as sr
     return gz_list(sr._superpauli_basis(nq).full())
+
+
+def impl_choi_to_kraus(c):
+    """_choi_to_kraus with the eigen-solver replaced by exact data (eigenvalues
+    that are perfect squares, integer eigenvectors)"""
+    import qutip
+    from qutip.core import superop_reps as sr
+    ind, outd = c["in"], c["out"]
+    N = prod(ind) * prod(outd)
+    J = qutip.Qobj(np.zeros((N, N)), dims=[[ind, outd], [ind, outd]], superrep="choi")
+    vals = np.array([float(x * x) for x, _ in c["sq"]])
+    vecs = [qutip.Qobj(from_gz(v, (N, 1))) for v in c["vecs"]]
+    real = qutip.Qobj.eigenstates
+    qutip.Qobj.eigenstates = lambda self, *a, **k: (vals, vecs)
+    try:
+        ks = sr._choi_to_kraus(J, 1e-9)
+    finally:
+        qutip.Qobj.eigenstates = real
+    return [[gz_list(k.full()), k.dims[0], k.dims[1], list(k.shape)] for k in ks]
 
 
 def impl_svdk(c):
@@ -987,8 +1006,10 @@ def run(ctx):
             ctx.violation("tx:superop_reps._super_tofrom_choi", "outside-subset",
                           "translator refused the source: %s" % e, {"error": str(e)},
                           found_input=False)
-    targets = ["Props/C08.vo", "Props/C08_alg.vo", "Props/C08_ext.vo", "Props/C08_alg2.vo"]
-    props = ["Props/C08.v", "Props/C08_alg.v", "Props/C08_ext.v", "Props/C08_alg2.v"]
+    targets = ["Props/C08.vo", "Props/C08_alg.vo", "Props/C08_ext.vo", "Props/C08_alg2.vo",
+               "Props/C08_pred.vo", "Props/C08_alg3.vo"]
+    props = ["Props/C08.v", "Props/C08_alg.v", "Props/C08_ext.v", "Props/C08_alg2.v",
+             "Props/C08_pred.v", "Props/C08_alg3.v"]
     if tx_ok:
         targets.append("Gen/C08_shuffle.vo")
         props.append("Gen/C08_shuffle.v")
@@ -1111,6 +1132,27 @@ def run(ctx):
         add("dual_chan", {"family": "dual", "obj": o},
             "let r := dual_chan %s in (observe r, err_code r)" % c_qobj(o), iv, canon_model_obs,
             not (iv and iv[0] == "err"))
+    # _choi_to_kraus after the eigen-solver (exact stand-in for eigenstates)
+    for k in range(14 if ctx.quick else 120):
+        ind = list(rng.choice([s_ for s_ in SUBSYS if 1 < prod(s_) <= 4]))
+        outd = list(ind) if rng.random() < 0.4 else list(
+            rng.choice([s_ for s_ in SUBSYS if 1 < prod(s_) <= 4]))
+        N = prod(ind) * prod(outd)
+        L = rng.randint(1, 3)
+        c = {"in": ind, "out": outd,
+             "sq": [[rng.choice([0, 1, 2, 3]), 0] for _ in range(L)],
+             "vecs": [rgz(rng, N) for _ in range(L)]}
+        try:
+            iv = impl_choi_to_kraus(c)
+        except Exception as e:
+            iv = ("err", type(e).__name__, str(e)[:100])
+        expr = ("map (fun K => (o_data K, o_dl K, o_dr K, [o_m K; o_n K]%%nat)) "
+                "(choi_to_kraus_from (mkS [] ((%s, %s), (%s, %s)) Choi) %s %s)" % (
+                    c_nl(ind), c_nl(outd), c_nl(ind), c_nl(outd), c_gz(c["sq"]),
+                    clist(c["vecs"], c_gz)))
+        add("choi_to_kraus", {"family": "ctk", "c": c}, expr, iv,
+            lambda v: [[[list(x) for x in t[0]], list(t[1]), list(t[2]), list(t[3])] for t in v],
+            any(x != 0 for x, _ in c["sq"]))
     # Pauli basis
     for nq in ([1, 2] if ctx.quick else [1, 2, 3]):
         add("superpauli", {"family": "pauli", "nq": nq}, "superpauli %s" % cnat(nq),
@@ -1272,6 +1314,22 @@ def replay(ctx, payload):
         hit = [x for x in f if x[0] == payload["site"] and x[1] == payload["signature"]] or f
         for site, sig, what, extra in hit[:1]:
             ctx.violation(site, sig, what, {"map": d["map"], "extra": extra})
+    elif "case" in d and d["case"].get("family") == "ctk":
+        c = d["case"]["c"]
+        try:
+            iv = impl_choi_to_kraus(c)
+        except Exception as e:
+            iv = ("err", type(e).__name__, str(e)[:100])
+        expr = ("map (fun K => (o_data K, o_dl K, o_dr K, [o_m K; o_n K]%%nat)) "
+                "(choi_to_kraus_from (mkS [] ((%s, %s), (%s, %s)) Choi) %s %s)" % (
+                    c_nl(c["in"]), c_nl(c["out"]), c_nl(c["in"]), c_nl(c["out"]), c_gz(c["sq"]),
+                    clist(c["vecs"], c_gz)))
+        vals = vlib.coq_eval_values("replay_C08", HEADER, [expr])
+        mv = [[[list(x) for x in t[0]], list(t[1]), list(t[2]), list(t[3])]
+              for t in vlib.parse_coq_value(vals[0])]
+        if _norm(iv) != _norm(mv):
+            ctx.violation(payload["site"], payload["signature"], payload["what"],
+                          {"case": d["case"], "impl": _short(iv), "model": _short(mv)})
     elif "case" in d and d["case"].get("family") == "dual":
         o = d["case"]["obj"]
         try:
